@@ -247,21 +247,27 @@ def list_properties(job, gb, workdir):
 HARD = ("postcondition", "precondition", "loop_invariant_base", "loop_invariant_step", "loop_decreases")
 
 
-def split_groups(props):
+def split_groups(props, mode=True):
     """Each contract-level obligation gets its own solver run; the mass of frame /
-    pointer / bounds obligations shares one."""
+    pointer / bounds obligations shares one.  mode "cut": additionally the cut-point
+    assertions (description "compress: ...") get one run per source line (= per round)."""
     hard, rest = [], []
+    bylines = {}
     for p in props:
         name = p.get("name", "")
         desc = p.get("description", "")
         c = prop_class({"property": name, "description": desc})
+        if mode == "cut" and desc.startswith("compress:"):
+            loc = p.get("sourceLocation") or {}
+            bylines.setdefault((loc.get("function"), loc.get("line")), []).append(name)
+            continue
         if "vf_canary" in desc:
             hard.append([name])
         elif c in HARD and not name.startswith(("free.", "malloc.", "__CPROVER")):
             hard.append([name])
         else:
             rest.append(name)
-    groups = hard
+    groups = hard + list(bylines.values())
     if rest:
         groups.append(rest)
     return groups
